@@ -323,6 +323,9 @@ def _strip_self(lock):
 
 
 def harness_bin(release=False):
+    # BC_HARNESS_BIN: an instrumented build of the same harness (bin/coverage); never set by a registered check
+    if os.environ.get("BC_HARNESS_BIN"):
+        return os.environ["BC_HARNESS_BIN"]
     return os.path.join(TARGET, "release" if release else "debug", "bcharness")
 
 
